@@ -80,6 +80,11 @@ class SSeq:
     def is_base(self):
         return self.stage is None
 
+    def order_shape(self):
+        """the sequence of order-changing stages: two pipes are the same list only if these agree (and the sort keys are
+        order-equivalent, the filters and maps pointwise equal)"""
+        return tuple(k for k, _ in self.stages if k in ('sort', 'reverse'))
+
     def eval_at(self, suffix):
         """(pred: z3 Bool|bool, keys: [value], value) of the pipe at the canonical element `suffix`."""
         from .interp import _and
@@ -94,6 +99,8 @@ class SSeq:
                 r = (_and(pred, fn(v)), keys, v)
             elif kind == 'sort':
                 r = (pred, keys + [fn(v)], v)
+            elif kind == 'reverse':
+                r = (pred, keys, v)         # the order is part of the pipe's shape (order_shape), not of its value at an element
             else:
                 r = (pred, keys, fn(v))
         self._cache[suffix] = r
@@ -177,6 +184,8 @@ class PipeTable:
     def equivalent(self, p: SSeq, q: SSeq) -> bool:
         from .interp import zbool, _and, _iff
         I = self.I
+        if p.order_shape() != q.order_shape():
+            return False
         pp, pk, pv = p.eval_at('i')
         qp, qk, qv = q.eval_at('i')
         inv_i = self._inv(p.src, 'i')
